@@ -40,6 +40,9 @@ def run(W, chk):
                "Claim and Rewards differ: only in claim %s ; only in query %s" % (
                    sorted((k, sorted(v)) for k, v in ca.items() if qa.get(k) != v)[:6], sorted((k, sorted(v)) for k, v in qa.items() if ca.get(k) != v)[:6]),
                where(sends[0]) if sends else A.entry)
+    from rules.common import farm_enumeration_bound
+    farm_enumeration_bound(chk, A, "Claim")
+    farm_enumeration_bound(chk, Q, "Rewards")
     # ---- best effort on the shared helper (skipped when it is not found under this name)
     fid = "farm_manager::farm::commands::calculate_rewards"
     if not W.has_fn(fid):
